@@ -7,6 +7,7 @@ package dig_test
 
 import (
 	"fmt"
+	"os"
 	"testing"
 )
 
@@ -178,6 +179,52 @@ func TestVerifCorruptBounded(t *testing.T) {
 					nfail++
 					if nfail <= 12 {
 						fmt.Printf("BOUNDED-FAIL corruption %s of %s, range %d: accepted, but %s\n", c.name, c.method, limit, m)
+					}
+				}
+			}
+		}
+	}
+	// thorough tier: every pair of corruptions on two different RPC methods
+	if os.Getenv("VERIF_TIER") == "thorough" {
+		all := corruptions()
+		for _, pl := range plans {
+			for i := range all {
+				for j := range all {
+					if all[i].method >= all[j].method {
+						continue
+					}
+					c1, c2 := all[i], all[j]
+					nodeMu.Lock()
+					nodeCorrupt, nodeCorrupt2, nodeHits, nodeHits2 = &c1, &c2, 0, 0
+					nodeMu.Unlock()
+					expectHook = func(name string, n, i, k uint64) (string, bool) {
+						for _, c := range []corruption{c1, c2} {
+							if c.expect != nil {
+								if v, ok := c.expect(name, n, i, k); ok {
+									return v, true
+								}
+							}
+						}
+						return "", false
+					}
+					msgs := runSetN(t, ts, pl.mode, pl.set, 2, true)
+					expectHook = nil
+					nodeMu.Lock()
+					h1, h2 := nodeHits, nodeHits2
+					nodeCorrupt, nodeCorrupt2 = nil, nil
+					nodeMu.Unlock()
+					if h1 == 0 || h2 == 0 {
+						continue // the plan does not use both methods (or the first corruption already stopped it)
+					}
+					if (c1.mustFail || c2.mustFail) && !lastRejected {
+						msgs = append(msgs, "a response with a non-2xx HTTP status was used")
+					}
+					cases++
+					for _, m := range msgs {
+						nfail++
+						if nfail <= 12 {
+							fmt.Printf("BOUNDED-FAIL corruptions %s of %s + %s of %s: accepted, but %s\n", c1.name, c1.method, c2.name, c2.method, m)
+						}
 					}
 				}
 			}
